@@ -75,6 +75,7 @@ type pgen struct {
 	texts      []string
 	noErr      bool // avoid constructs that may fail the render
 	captures   int
+	inRow      int // directly inside a tablerow body
 	rich       bool // use the extended filter pool
 	flAssigned bool
 	hasInc     bool // an includable file inc.liq exists
@@ -287,14 +288,22 @@ func (g *pgen) seq(depth int, maxLen int) []any {
 			out = append(out, g.withTrims(g.forNode(depth-1))...)
 		case k == 16 && depth > 0:
 			name := pick(g.r, []string{"s", "t", "cap"})
+			if g.trims {
+				// (a captured text that lost white space to a hyphen must not feed a computation that depends on
+				// white space - capitalize, size, split ...: with hyphens in play it is only ever printed)
+				name = "cap"
+			}
 			g.captures++
 			out = append(out, g.withTrims(J{"t": "capture", "name": bs(name), "body": g.innerTrims(g.body(depth-1, 3))})...)
 			g.captures--
 		case k == 17 && depth > 0:
 			out = append(out, g.withTrims(g.caseNode(depth-1))...)
-		case k == 18 && g.inLoop > 0:
-			// break / continue under a condition
+		case k == 18 && (g.inLoop > 0 || g.inRow > 0):
+			// break / continue under a condition (directly inside a tablerow only continue: a break may leave a row open)
 			sig := pick(g.r, []string{"break", "continue"})
+			if g.inLoop == 0 {
+				sig = "continue"
+			}
 			out = append(out, J{"t": "if", "branches": []any{J{"c": g.cond(1), "body": []any{J{"t": sig}}}}})
 		case k == 19 && g.inLoop > 0 && g.captures == 0:
 			// the value list is a function of the group (what two cycle tags of one group
@@ -316,7 +325,11 @@ func (g *pgen) seq(depth int, maxLen int) []any {
 		case g.rich && k == 11 && g.hasInc && g.r.Intn(2) == 0:
 			out = append(out, g.withTrims(J{"t": "include", "e": pick(g.r, []J{eLit(vStr("inc.liq")), eFilter(eLit(vStr("inc")), "append", eLit(vStr(".liq"))), eVar("incname")})})...)
 		default:
-			out = append(out, g.withTrims(nObj(g.expr(1)))...)
+			if g.trims && g.r.Intn(4) == 0 {
+				out = append(out, g.withTrims(nObj(eVar("cap")))...)
+			} else {
+				out = append(out, g.withTrims(nObj(g.expr(1)))...)
+			}
 		}
 	}
 	if g.rich && g.flAssigned && g.inLoop == 0 && g.r.Intn(2) == 0 {
@@ -407,14 +420,17 @@ func (g *pgen) forNode(depth int) J {
 		g.inLoop++
 	}
 	save := g.inLoop
+	saveRow := g.inRow
 	if tag == "tablerow" {
-		g.inLoop = 0 // no break / continue / cycle inside tablerow (left open by the statement)
+		g.inRow = 1
+		g.inLoop = 0 // no break / cycle directly inside tablerow (left open by the statement)
 		if g.r.Intn(2) == 0 {
 			node["cols"] = num(g.r.Intn(4))
 		}
 	}
 	node["body"] = g.innerTrims(g.body(depth, 4))
 	g.inLoop = save
+	g.inRow = saveRow
 	if tag == "for" {
 		g.inLoop--
 		if g.r.Intn(3) == 0 {
@@ -805,3 +821,81 @@ func genOmniFresh(r *rand.Rand, i int) J {
 }
 
 func init() { generators["omni"] = genOmni }
+
+// "bigarrays": arrays longer than the small models reach (library sorts switch algorithm with length: insertion sort
+// up to 12 elements), through every array filter and two-filter chains; the reference decides (rank-based sort).
+func genBigArrays(r *rand.Rand, i int) J {
+	n := 9 + r.Intn(40)
+	perm := r.Perm(n)
+	var items []any
+	kind := r.Intn(4)
+	for k := 0; k < n; k++ {
+		switch kind {
+		case 0: // distinct integers
+			items = append(items, vInt(perm[k]-n/2))
+		case 1: // distinct strings
+			items = append(items, vStr(fmt.Sprintf("s%03d", perm[k])))
+		case 2: // maps with distinct keys, a few identical ones lacking the key
+			if k%11 == 5 {
+				items = append(items, vMap("j", vInt(1)))
+			} else {
+				items = append(items, vMap("k", vInt(perm[k])))
+			}
+		default: // integers with repetitions and nils (uniq, compact)
+			if k%7 == 3 {
+				items = append(items, vNil())
+			} else {
+				items = append(items, vInt(perm[k]%5))
+			}
+		}
+	}
+	a := eVar("a")
+	var e J
+	switch kind {
+	case 2:
+		e = pick(r, []J{
+			eFilter(eFilter(eFilter(a, "sort", eLit(vStr("k"))), "map", eLit(vStr("k"))), "join", eLit(vStr(","))),
+			eFilter(eFilter(eFilter(a, "reverse"), "map", eLit(vStr("k"))), "join", eLit(vStr(","))),
+			eFilter(eFilter(eFilter(eFilter(a, "sort", eLit(vStr("k"))), "reverse"), "map", eLit(vStr("k"))), "join", eLit(vStr(","))),
+			eFilter(eFilter(a, "map", eLit(vStr("j"))), "size"),
+			eFilter(eFilter(a, "uniq"), "size"),
+			eProp(eFilter(eFilter(a, "sort", eLit(vStr("k"))), "last"), "k"),
+		})
+	case 3:
+		e = pick(r, []J{
+			eFilter(eFilter(a, "uniq"), "join", eLit(vStr(","))),
+			eFilter(eFilter(a, "compact"), "join", eLit(vStr(","))),
+			eFilter(eFilter(eFilter(a, "compact"), "sort"), "join", eLit(vStr(","))),
+			eFilter(eFilter(eFilter(a, "compact"), "uniq"), "size"),
+			eFilter(a, "join", eLit(vStr("+"))),
+			eFilter(eFilter(a, "concat", a), "size"),
+		})
+	default:
+		e = pick(r, []J{
+			eFilter(eFilter(a, "sort"), "join", eLit(vStr(","))),
+			eFilter(eFilter(eFilter(a, "sort"), "reverse"), "join", eLit(vStr(","))),
+			eFilter(eFilter(a, "reverse"), "join", eLit(vStr(","))),
+			eFilter(eFilter(a, "sort"), "first"), eFilter(eFilter(a, "sort"), "last"),
+			eFilter(eFilter(a, "uniq"), "size"), eFilter(eFilter(a, "sort_natural"), "first"),
+			eFilter(eFilter(eFilter(a, "concat", a), "uniq"), "size"),
+			eFilter(eFilter(eFilter(a, "reverse"), "sort"), "join", eLit(vStr(","))),
+		})
+	}
+	// the input printed again afterwards: the filter left it as it was
+	prog := []any{nObj(e), nText("#"), J{"t": "for", "tag": "for", "var": bs("x"), "coll": a, "lim": eLit(vInt(3)), "body": []any{nObj(eProp(eVar("x"), "k")), nObj(eProp(eVar("forloop"), "index"))}},
+		nText("#"), nObj(eFilter(a, "size"))}
+	if kind != 2 {
+		prog = []any{nObj(e), nText("#"), nObj(eFilter(a, "join", eLit(vStr(","))))}
+	}
+	c := J{"kind": "render", "prog": prog, "env": []any{[]any{bs("a"), vArr(items...)}}}
+	if kind == 0 && r.Intn(2) == 0 {
+		c["repr"] = J{"a": pick(r, []string{"ints", "int64s", "float64s"})}
+	} else if kind == 1 && r.Intn(2) == 0 {
+		c["repr"] = J{"a": "strings"}
+	} else if kind == 2 && r.Intn(2) == 0 {
+		c["repr"] = J{"a": "maps"}
+	}
+	return c
+}
+
+func init() { generators["bigarrays"] = genBigArrays }
